@@ -1,6 +1,6 @@
 //! C-PRIM (`PRIMITIVES`): today's token text (attributes except doc comments, visibility, signature,
-//! body; as `quote!` prints them, without white space) of the primitives of num.rs that the
-//! translation calls BY NAME with the meaning of the hand models (rule 10): `Float::pow_fast_path`,
+//! body; as `quote!` prints them: single spaces between tokens, literals verbatim) of the primitives
+//! of num.rs that the translation calls BY NAME with the meaning of the hand models (rule 10): `Float::pow_fast_path`,
 //! `from_u64`, `from_bits`, `to_bits` for f32 and f64 (model/Number.v, model/FloatOps.v, model/Num.v),
 //! `int_pow_fast_path` (model/Number.v), the std `powf` / `powd` wrappers, `FastPathRadix` and its
 //! conversion to u64, and the `verif_int_pow_fast_path` hook through which the values are dumped.
@@ -13,37 +13,38 @@
 //! (bigint.rs, table_small.rs), the functions of slow.rs are OMITTED.
 //!
 //! Regenerate both tables with `rs2coq --dump-pins <src-dir>` after a reviewed change.
+
 pub const PRIMITIVES: &[(&str, &str, &str, &str)] = &[
-    ("num.rs", "Float for f32", "pow_fast_path", "#[inline(always)]unsafefnpow_fast_path(exponent:usize)->Self{#[cfg(not(feature=\"compact\"))]returnunsafe{*SMALL_F32_POW10.get_unchecked(exponent)};#[cfg(feature=\"compact\")]returnpowf(10.0f32,exponentasf32);}"),
-    ("num.rs", "Float for f32", "from_u64", "#[inline]fnfrom_u64(u:u64)->f32{uas_}"),
-    ("num.rs", "Float for f32", "from_bits", "#[inline]fnfrom_bits(u:u64)->f32{debug_assert!(u<=0xffff_ffff);f32::from_bits(uasu32)}"),
-    ("num.rs", "Float for f32", "to_bits", "#[inline]fnto_bits(self)->u64{f32::to_bits(self)asu64}"),
-    ("num.rs", "Float for f64", "pow_fast_path", "#[inline(always)]unsafefnpow_fast_path(exponent:usize)->Self{#[cfg(not(feature=\"compact\"))]returnunsafe{*SMALL_F64_POW10.get_unchecked(exponent)};#[cfg(feature=\"compact\")]returnpowd(10.0f64,exponentasf64);}"),
-    ("num.rs", "Float for f64", "from_u64", "#[inline]fnfrom_u64(u:u64)->f64{uas_}"),
-    ("num.rs", "Float for f64", "from_bits", "#[inline]fnfrom_bits(u:u64)->f64{f64::from_bits(u)}"),
-    ("num.rs", "Float for f64", "to_bits", "#[inline]fnto_bits(self)->u64{f64::to_bits(self)}"),
-    ("num.rs", "", "powf", "#[inline(always)]#[cfg(all(feature=\"std\",feature=\"compact\"))]pubfnpowf(x:f32,y:f32)->f32{x.powf(y)}"),
-    ("num.rs", "", "powd", "#[inline(always)]#[cfg(all(feature=\"std\",feature=\"compact\"))]pubfnpowd(x:f64,y:f64)->f64{x.powf(y)}"),
-    ("num.rs", "enum", "FastPathRadix", "pub(crate)enumFastPathRadix{Five,Ten,}"),
-    ("num.rs", "From<FastPathRadix> for u64", "from", "fnfrom(radix:FastPathRadix)->u64{matchradix{FastPathRadix::Five=>5,FastPathRadix::Ten=>10,}}"),
-    ("num.rs", "", "int_pow_fast_path", "#[inline(always)]pub(crate)unsafefnint_pow_fast_path(exponent:usize,radix:FastPathRadix)->u64{#[cfg(not(feature=\"compact\"))]returnmatchradix{FastPathRadix::Five=>unsafe{*SMALL_INT_POW5.get_unchecked(exponent)},FastPathRadix::Ten=>unsafe{*SMALL_INT_POW10.get_unchecked(exponent)},};#[cfg(feature=\"compact\")]returnu64::from(radix).pow(exponentasu32);}"),
-    ("num.rs", "", "verif_int_pow_fast_path", "#[cfg(feature=\"verif\")]pubunsafefnverif_int_pow_fast_path(exponent:usize,radix_is_ten:bool)->u64{letradix=ifradix_is_ten{FastPathRadix::Ten}else{FastPathRadix::Five};unsafe{int_pow_fast_path(exponent,radix)}}"),
+    ("num.rs", "Float for f32", "pow_fast_path", "# [inline (always)] unsafe fn pow_fast_path (exponent : usize) -> Self { # [cfg (not (feature = \"compact\"))] return unsafe { * SMALL_F32_POW10 . get_unchecked (exponent) } ; # [cfg (feature = \"compact\")] return powf (10.0f32 , exponent as f32) ; }"),
+    ("num.rs", "Float for f32", "from_u64", "# [inline] fn from_u64 (u : u64) -> f32 { u as _ }"),
+    ("num.rs", "Float for f32", "from_bits", "# [inline] fn from_bits (u : u64) -> f32 { debug_assert ! (u <= 0xffff_ffff) ; f32 :: from_bits (u as u32) }"),
+    ("num.rs", "Float for f32", "to_bits", "# [inline] fn to_bits (self) -> u64 { f32 :: to_bits (self) as u64 }"),
+    ("num.rs", "Float for f64", "pow_fast_path", "# [inline (always)] unsafe fn pow_fast_path (exponent : usize) -> Self { # [cfg (not (feature = \"compact\"))] return unsafe { * SMALL_F64_POW10 . get_unchecked (exponent) } ; # [cfg (feature = \"compact\")] return powd (10.0f64 , exponent as f64) ; }"),
+    ("num.rs", "Float for f64", "from_u64", "# [inline] fn from_u64 (u : u64) -> f64 { u as _ }"),
+    ("num.rs", "Float for f64", "from_bits", "# [inline] fn from_bits (u : u64) -> f64 { f64 :: from_bits (u) }"),
+    ("num.rs", "Float for f64", "to_bits", "# [inline] fn to_bits (self) -> u64 { f64 :: to_bits (self) }"),
+    ("num.rs", "", "powf", "# [inline (always)] # [cfg (all (feature = \"std\" , feature = \"compact\"))] pub fn powf (x : f32 , y : f32) -> f32 { x . powf (y) }"),
+    ("num.rs", "", "powd", "# [inline (always)] # [cfg (all (feature = \"std\" , feature = \"compact\"))] pub fn powd (x : f64 , y : f64) -> f64 { x . powf (y) }"),
+    ("num.rs", "enum", "FastPathRadix", "pub (crate) enum FastPathRadix { Five , Ten , }"),
+    ("num.rs", "From < FastPathRadix > for u64", "from", "fn from (radix : FastPathRadix) -> u64 { match radix { FastPathRadix :: Five => 5 , FastPathRadix :: Ten => 10 , } }"),
+    ("num.rs", "", "int_pow_fast_path", "# [inline (always)] pub (crate) unsafe fn int_pow_fast_path (exponent : usize , radix : FastPathRadix) -> u64 { # [cfg (not (feature = \"compact\"))] return match radix { FastPathRadix :: Five => unsafe { * SMALL_INT_POW5 . get_unchecked (exponent) } , FastPathRadix :: Ten => unsafe { * SMALL_INT_POW10 . get_unchecked (exponent) } , } ; # [cfg (feature = \"compact\")] return u64 :: from (radix) . pow (exponent as u32) ; }"),
+    ("num.rs", "", "verif_int_pow_fast_path", "# [cfg (feature = \"verif\")] pub unsafe fn verif_int_pow_fast_path (exponent : usize , radix_is_ten : bool) -> u64 { let radix = if radix_is_ten { FastPathRadix :: Ten } else { FastPathRadix :: Five } ; unsafe { int_pow_fast_path (exponent , radix) } }"),
 ];
 
 pub const DROPPED32: &[(&str, &str, &str)] = &[
-    ("bigint.rs", "from_u64#if0", "{vec.try_push(xasLimb).unwrap();vec.try_push((x>>32)asLimb).unwrap();}"),
-    ("bigint.rs", "hi64#arm0", "1ifLIMB_BITS==32=>hi!(@1x,rslc,u32,u32_to_hi64_1),"),
-    ("bigint.rs", "hi64#arm1", "2ifLIMB_BITS==32=>hi!(@2x,rslc,u32,u32_to_hi64_2),"),
-    ("bigint.rs", "hi64#arm2", "_ifLIMB_BITS==32=>hi!(@nonzero3x,rslc,u32,u32_to_hi64_3),"),
-    ("bigint.rs", "pow#if0", "{13}"),
-    ("bigint.rs", "fn:u32_to_hi64_1", "#[inline]pubfnu32_to_hi64_1(r0:u32)->(u64,bool){u64_to_hi64_1(r0asu64)}"),
-    ("bigint.rs", "fn:u32_to_hi64_2", "#[inline]pubfnu32_to_hi64_2(r0:u32,r1:u32)->(u64,bool){letr0=(r0asu64)<<32;letr1=r1asu64;u64_to_hi64_1(r0|r1)}"),
-    ("bigint.rs", "fn:u32_to_hi64_3", "#[inline]pubfnu32_to_hi64_3(r0:u32,r1:u32,r2:u32)->(u64,bool){letr0=r0asu64;letr1=(r1asu64)<<32;letr2=r2asu64;u64_to_hi64_2(r0,r1|r2)}"),
-    ("bigint.rs", "macro hi:@3", "(@3$self:ident,$rview:ident,$t:ident,$fn:ident)=>{{letr0=$rview[0]as$t;letr1=$rview[1]as$t;letr2=$rview[2]as$t;$fn(r0,r1,r2)}}"),
-    ("bigint.rs", "macro hi:@nonzero3", "(@nonzero3$self:ident,$rview:ident,$t:ident,$fn:ident)=>{{let(v,n)=hi!(@3$self,$rview,$t,$fn);(v,n||nonzero($self,3))}}"),
-    ("bigint.rs", "cfg32:type Limb", "#[cfg(not(all(target_pointer_width=\"64\",not(target_arch=\"sparc\"))))]pubtypeLimb=u32;"),
-    ("bigint.rs", "cfg32:type Wide", "#[cfg(not(all(target_pointer_width=\"64\",not(target_arch=\"sparc\"))))]pubtypeWide=u64;"),
-    ("bigint.rs", "cfg32:const LIMB_BITS", "#[cfg(not(all(target_pointer_width=\"64\",not(target_arch=\"sparc\"))))]constLIMB_BITS:usize=32;"),
-    ("slow.rs", "parse_mantissa#if0", "{9}"),
-    ("table_small.rs", "cfg32:const LARGE_POW5", "#[cfg(not(all(target_pointer_width=\"64\",not(target_arch=\"sparc\"))))]constLARGE_POW5:[u32;10]=[4279965485,329373468,4020270615,2137533757,4287402176,1057042919,1071430142,2440757623,381945767,46164893,];"),
+    ("bigint.rs", "from_u64#if0", "{ vec . try_push (x as Limb) . unwrap () ; vec . try_push ((x >> 32) as Limb) . unwrap () ; }"),
+    ("bigint.rs", "hi64#arm0", "1 if LIMB_BITS == 32 => hi ! (@ 1 x , rslc , u32 , u32_to_hi64_1) ,"),
+    ("bigint.rs", "hi64#arm1", "2 if LIMB_BITS == 32 => hi ! (@ 2 x , rslc , u32 , u32_to_hi64_2) ,"),
+    ("bigint.rs", "hi64#arm2", "_ if LIMB_BITS == 32 => hi ! (@ nonzero3 x , rslc , u32 , u32_to_hi64_3) ,"),
+    ("bigint.rs", "pow#if0", "{ 13 }"),
+    ("bigint.rs", "fn:u32_to_hi64_1", "# [inline] pub fn u32_to_hi64_1 (r0 : u32) -> (u64 , bool) { u64_to_hi64_1 (r0 as u64) }"),
+    ("bigint.rs", "fn:u32_to_hi64_2", "# [inline] pub fn u32_to_hi64_2 (r0 : u32 , r1 : u32) -> (u64 , bool) { let r0 = (r0 as u64) << 32 ; let r1 = r1 as u64 ; u64_to_hi64_1 (r0 | r1) }"),
+    ("bigint.rs", "fn:u32_to_hi64_3", "# [inline] pub fn u32_to_hi64_3 (r0 : u32 , r1 : u32 , r2 : u32) -> (u64 , bool) { let r0 = r0 as u64 ; let r1 = (r1 as u64) << 32 ; let r2 = r2 as u64 ; u64_to_hi64_2 (r0 , r1 | r2) }"),
+    ("bigint.rs", "macro hi:@3", "(@ 3 $ self : ident , $ rview : ident , $ t : ident , $ fn : ident) => { { let r0 = $ rview [0] as $ t ; let r1 = $ rview [1] as $ t ; let r2 = $ rview [2] as $ t ; $ fn (r0 , r1 , r2) } }"),
+    ("bigint.rs", "macro hi:@nonzero3", "(@ nonzero3 $ self : ident , $ rview : ident , $ t : ident , $ fn : ident) => { { let (v , n) = hi ! (@ 3 $ self , $ rview , $ t , $ fn) ; (v , n || nonzero ($ self , 3)) } }"),
+    ("bigint.rs", "cfg32:type Limb", "# [cfg (not (all (target_pointer_width = \"64\" , not (target_arch = \"sparc\"))))] pub type Limb = u32 ;"),
+    ("bigint.rs", "cfg32:type Wide", "# [cfg (not (all (target_pointer_width = \"64\" , not (target_arch = \"sparc\"))))] pub type Wide = u64 ;"),
+    ("bigint.rs", "cfg32:const LIMB_BITS", "# [cfg (not (all (target_pointer_width = \"64\" , not (target_arch = \"sparc\"))))] const LIMB_BITS : usize = 32 ;"),
+    ("slow.rs", "parse_mantissa#if0", "{ 9 }"),
+    ("table_small.rs", "cfg32:const LARGE_POW5", "# [cfg (not (all (target_pointer_width = \"64\" , not (target_arch = \"sparc\"))))] const LARGE_POW5 : [u32 ; 10] = [4279965485 , 329373468 , 4020270615 , 2137533757 , 4287402176 , 1057042919 , 1071430142 , 2440757623 , 381945767 , 46164893 ,] ;"),
 ];
